@@ -93,6 +93,21 @@ def scenario(spec: dict):
             with w as f:
                 for c in spec['chunks']:
                     f.write(CHUNKS[c])
+        elif kind == 'abandon':
+            # a cycle that is entered, written to and never exited (the caller lost interest), then the same writer
+            # object performs a complete cycle: the destination must hold exactly the second cycle's data
+            w = AtomicWriter(dest, is_bytes=True)
+            f0 = w.__enter__()
+            f0.write(b'ABANDONED-GENERATION-' * 3)
+            if spec.get('flush_abandoned'):
+                f0.flush()
+            with w as f:
+                for c in spec['chunks']:
+                    f.write(CHUNKS[c])
+            try:
+                f0.close()
+            except (OSError, ValueError):
+                pass
         elif kind == 'bsp':
             from srctools.bsp import BSP
             bsp = BSP(BSP_SAMPLE)
@@ -181,7 +196,7 @@ def explore_scenario(base: str, spec: dict) -> core.Acc:
         if final.get(rel_dest) != new_hash:
             acc.fail('wrong_final_contents', case0, f'{spec}: destination does not hold the new contents after a clean exit')
         left = [t for t in temps(final) if t not in stale]
-        if left:
+        if left and spec['kind'] != 'abandon':   # the abandoned cycle's temp file is not a handled failure
             acc.fail('temp_left_after_success', case0, f'{spec}: temporary files left behind: {left}')
     for k, v in stale.items():
         if final.get(k) != v:
@@ -236,7 +251,7 @@ def explore_scenario(base: str, spec: dict) -> core.Acc:
                 elif got != want:
                     acc.fail('fault_absorbed_wrong_contents', case, f'{spec}: {fname} at #{i} ({op} {detail}) was absorbed but the '
                              f'destination is not the {"old" if expect_fail else "new"} contents', **sig)
-                if left and not (op == 'unlink'):
+                if left and not (op == 'unlink') and spec['kind'] != 'abandon':
                     acc.fail('temp_left_after_fault', case, f'{spec}: {fname} at #{i} ({op} {detail}): temp files left: {left}; ops={c2.log}', **sig)
                 if not tolerated and raised2 is None and not expect_fail:
                     acc.fail('fault_swallowed', case, f'{spec}: {fname} at #{i} ({op} {detail}) was silently swallowed', **sig)
@@ -248,7 +263,7 @@ def explore_scenario(base: str, spec: dict) -> core.Acc:
             if got not in prev_ok:
                 acc.fail('failed_write_changed_dest', case, f'{spec}: {fname} at #{i} ({op} {detail}) raised {type(raised2).__name__} '
                          f'but the destination no longer holds the previous contents (sha {got})', **sig)
-            if left and op != 'unlink':
+            if left and op != 'unlink' and spec['kind'] != 'abandon':
                 acc.fail('temp_left_after_fault', case, f'{spec}: {fname} at #{i} ({op} {detail}) raised {type(raised2).__name__}; '
                          f'temporary files left behind: {left}; ops={c2.log}', **sig)
             for k, v in stale.items():
@@ -432,7 +447,7 @@ def explore_strace(base: str, spec: dict) -> core.Acc:
     acc.outcome(('trace', tuple(real_dir_ops)))
     if real_dir_ops != model_dir_ops:
         acc.fail('model_trace_mismatch', case, f'{spec}: kernel-level directory operations {real_dir_ops} differ from the interposer log {model_dir_ops}')
-    if spec['kind'] in ('bytes', 'twice', 'bsp') and raised is None and real_bytes != model_bytes:
+    if spec['kind'] in ('bytes', 'twice', 'bsp', 'abandon') and raised is None and real_bytes != model_bytes:
         acc.fail('model_trace_mismatch', case, f'{spec}: {real_bytes} bytes written at syscall level, interposer saw {model_bytes}')
     # ---- real SIGKILL at every syscall after the start marker
     seen: dict = {}
@@ -500,6 +515,8 @@ def scenario_list(quick: bool) -> list:
     specs.append({'kind': 'bytes', 'chunks': 'sf', 'old': True, 'stale': True})
     specs.append({'kind': 'bytes', 'chunks': 's', 'old': True, 'stale': True, 'raise_at': 1, 'raise_kind': 'ValueError'})
     specs.append({'kind': 'twice', 'chunks': 'sf', 'old': True})
+    specs.append({'kind': 'abandon', 'chunks': 'sf', 'old': True})
+    specs.append({'kind': 'abandon', 'chunks': 's', 'old': False, 'flush_abandoned': True})
     specs.append({'kind': 'bsp', 'old': True})
     specs.append({'kind': 'bsp', 'old': False})
     return specs
@@ -516,7 +533,7 @@ def run(ctx: core.Ctx) -> None:
     st_specs = scenario_list(ctx.quick)
     if ctx.quick:
         st_specs = [s for s in st_specs if s.get('chunks') in ('sf', 'sfs', 'L') and s['kind'] != 'bsp'][:8] + \
-                   [s for s in st_specs if s['kind'] in ('twice', 'text')][:2]
+                   [s for s in st_specs if s['kind'] in ('twice', 'text', 'abandon')][:3]
     import shutil as _sh
     if _sh.which('strace'):
         shards += [('strace', s) for s in st_specs]
@@ -531,7 +548,7 @@ def run(ctx: core.Ctx) -> None:
     ctx.assumptions.append('file-system operations are intercepted at io.open / os.mkdir / os.replace / os.unlink and on the returned file '
                            'object (write, seek, flush, close); an operation the writer performed through another route would be unseen')
     ctx.rule = (f'{len(shards)} scenarios: bytes/text writers with bodies of 0-3 chunks from (0, 10, 8193, 100096 bytes), destination '
-                f'previously present/absent, missing parent directories, a stale tmp_1, a writer object used twice, the body raising '
+                f'previously present/absent, missing parent directories, a stale tmp_1, a writer object used twice, a cycle entered and abandoned before the same writer completes another, the body raising '
                 f'ValueError/KeyboardInterrupt at every write index, and BSP.save of the sample map; for each: a directory snapshot '
                 f'after EVERY intercepted operation (crash points), and ONE injected OSError (ENOSPC, EACCES, EIO; EEXIST at open; ENOENT '
                 f'at unlink) at EVERY operation; plus every interleaving of two writers (both succeed / either fails / stale temp / same '
